@@ -89,8 +89,81 @@ func checkLookupsConcurrent(c *Ctx, rule string) {
 	R.Floor(rule+":fanout-lookups", n, 1)
 }
 
+// checkLookupSpelling: the resolver (and the cache key) are asked with net.IP.String() of the address - the one spelling that is the
+// same for the 4-byte and the 16-byte form of an IPv4 address. A conversion through netip.AddrFromSlice prints the 16-byte form as
+// "::ffff:a.b.c.d": another name to resolve (under ip6.arpa) and another cache key for the same address.
+func checkLookupSpelling(c *Ctx) {
+	R := c.R
+	n := 0
+	for _, f := range c.P.ModFuncs {
+		if core.ShortPkg(core.FuncPkg(f)) != "reversedns" || len(f.Params) == 0 || !isNamed(f.Params[0].Type(), "net", "IP") {
+			continue
+		}
+		fn := core.FuncName(f)
+		for _, b := range f.Blocks {
+			for _, in := range b.Instrs {
+				call, ok := in.(*ssa.Call)
+				if !ok || call.Common().StaticCallee() == nil || core.FuncName(call.Common().StaticCallee()) != "reversedns.GetReverseDns" || len(call.Common().Args) == 0 {
+					continue
+				}
+				n++
+				for _, pa := range firstPath(f, b) {
+					a := core.NewEnv(c.P, pa).Term(call.Common().Args[0])
+					want := "(net.IP).String(param:" + f.Params[0].Name() + ")"
+					R.Check(a.String() == want, "R18.1", fn+"#lookup-spelling", call.Pos(), fn, "the resolver is asked with net.IP.String() of the address", "the resolver and the cache are keyed by "+a.String()+" instead of net.IP.String() of the address: the 16-byte form of an IPv4 address then spells another name (::ffff:a.b.c.d), so the hop gets the names of a different question, or none, and the cached answer of the 4-byte form is not reused")
+				}
+			}
+		}
+	}
+	R.Floor("R18.1:lookup-spellings", n, 1)
+}
+
+// checkBodyReadWhole is R18.4b: a provider's answer is read to its end before it is parsed. A single Read on the response body
+// returns whatever fragment has arrived (chunked encoding, a flush, TCP segmentation): a prefix of the address that happens to be
+// an address itself is then reported - and cached - as the public IP, and a fragment that is not makes a provider that answered
+// correctly look broken.
+func checkBodyReadWhole(c *Ctx) {
+	R := c.R
+	n := 0
+	for _, f := range c.P.ModFuncs {
+		if core.ShortPkg(core.FuncPkg(f)) != "publicip" || strings.Contains(core.FuncName(f), "Mock") {
+			continue
+		}
+		fn := core.FuncName(f)
+		for _, b := range f.Blocks {
+			for _, in := range b.Instrs {
+				call, ok := in.(*ssa.Call)
+				if !ok {
+					continue
+				}
+				cc := call.Common()
+				isBody := func(v ssa.Value) bool {
+					ld, ok := c.P.Def(v).(*ssa.UnOp)
+					if !ok {
+						return false
+					}
+					fa, ok := ld.X.(*ssa.FieldAddr)
+					return ok && core.FieldName(fa) == "Body" && isNamed(fa.X.Type(), "net/http", "Response")
+				}
+				switch {
+				case cc.IsInvoke() && cc.Method.Name() == "Read" && isBody(cc.Value):
+					n++
+					R.Check(innermostLoop(f, b) != nil, "R18.4", fn+"#body-read-whole", call.Pos(), fn, "the body is read in a loop", "the provider's answer is taken from a single Read on the response body: a Read returns whatever fragment has arrived, so a prefix of the address (itself a valid address) is reported and cached as the public IP, or a provider that answered correctly is skipped")
+				case cc.StaticCallee() != nil && (cc.StaticCallee().String() == "io.ReadAll" || cc.StaticCallee().String() == "io.ReadFull") && len(cc.Args) > 0:
+					// through a MakeInterface / LimitReader wrapper the body is still read to the end
+					n++
+					R.OK("R18.4", fn+"#body-read-whole", call.Pos(), fn, "the body is read to its end ("+cc.StaticCallee().String()+")")
+				}
+			}
+		}
+	}
+	R.Floor("R18.4:body-reads", n, 1)
+}
+
 func runC18(c *Ctx) {
 	checkLookupsConcurrent(c, "R18.5")
+	checkLookupSpelling(c)
+	checkBodyReadWhole(c)
 	R := c.R
 	// ---- R18.1 / R18.2 writer
 	f := c.P.Func("reversedns.GetReverseDnsForIPs")
